@@ -23,6 +23,7 @@ EvOK(ev) ==
     [] ev.k = "dtlive" -> GenericRemainingLive(ev.answers, ev.rem)
     [] ev.k = "dtlife" -> ev.isopen /\ ev.allnil /\ ev.remsame
     [] ev.k = "regconc" -> ev.lost = 0     \* hooks registered at the same time by different goroutines: every one is in force
+    [] ev.k = "regrep" -> ev.calls = ev.n /\ ev.rcalls = ev.n /\ ev.wcalls = ev.n /\ ev.idok /\ ev.resok   \* one registration, many calls: each reaches the callback
     [] ev.k = "regre" -> ev.done /\ ev.ok = ev.rounds /\ ev.checked = ev.rounds   \* re-entrant callbacks: every dispatch returns the callback's result
     [] ev.k = "reg" -> /\ ev.ret = RegistryResult(ev.registered, ev.cbret)
                        /\ ev.registered => ev.argok
